@@ -156,6 +156,7 @@ func boundedSize(v value) int64 {
 // Choice forks n ways and returns the concrete alternative.
 func (e *Engine) Choice(name string, n int) int {
 	if n <= 1 {
+		e.counts[name]++ // keep occurrence numbering aligned with the native intrinsics
 		return 0
 	}
 	c := e.Fresh(name, types.Int).(*Sym)
